@@ -16,7 +16,7 @@ Not decided: that the pieces are right (token C03, replicas C04, plan C05, shard
 """
 from ..inline import inline_view
 from ..mir import AnchorLost
-from ..util import df_of, fn_short, in_set, backward_slice, operand_path, path_last, callers_keys
+from ..util import dj_of, df_of, fn_short, in_set, backward_slice, operand_path, path_last, callers_keys
 from .c20 import slice_fields
 
 RI = "scylla::policies::load_balancing::RoutingInfo"
@@ -261,9 +261,42 @@ def r6(ctx, facts):
         raise AnchorLost("no NodeLocationCriteria built in pick/fallback")
 
 
+def r7(ctx, facts):
+    r = ctx.rule("R7", "the pool adopts the sharder its node reports: it keeps the old one only if the two are equal", floor=2)
+    b = facts.one(r"^scylla::network::connection_pool::PoolRefiller::maybe_reshard$")
+    df = df_of(b, facts)
+    dj = dj_of(b, facts)
+    ups = [c.bb for c in b.calls_to("core::clone::Clone::clone_from", "core::clone::Clone::clone") if False]
+    ups = []
+    for bb, c in b.calls():
+        if bb in b.live_blocks and c.decl == "core::clone::Clone::clone_from" and path_last(operand_path(df, c.args[0])) == "sharder":
+            ups.append(bb)
+    for bb in b.live_blocks:
+        for st in b.stmts(bb):
+            if st[0] == "A" and st[1][1] and path_last(df.canon.path(st[1])) == "sharder":
+                ups.append(bb)
+    r.instance("sharder-is-updated", bool(ups), "maybe_reshard must store the reported sharder into self.sharder", b.span)
+    cmps = []
+    for bb, c in b.calls():
+        if bb in b.live_blocks and c.decl in ("core::cmp::PartialEq::eq", "core::cmp::PartialEq::ne") and len(c.args) == 2:
+            pa, pb = operand_path(df, c.args[0]), operand_path(df, c.args[1])
+            if {pa, pb} == {(1, ("sharder",)), (2, ())}:
+                cmps.append(c)
+    reach = dj.feasible_reach(0, removed_nodes=ups, with_states=True)
+    bad = []
+    for e in sorted(set(b.exits) & set(reach)):
+        for stt in reach[e] or [{}]:
+            eq = any(in_set(stt.get(("call", c.bb)), {1 if c.decl.endswith("::eq") else 0}) for c in cmps)
+            if not eq:
+                bad.append(e)
+    r.instance("kept-only-if-equal", bool(cmps) and not bad,
+               "maybe_reshard can return without adopting the reported sharder although `self.sharder == new_sharder` (the whole sharders: shard count AND msb_ignore) is not established on that path; "
+               "the shard of a token would then be computed with stale parameters", b.span)
+
+
 def check(ctx):
     facts = inline_view(ctx.facts("default"))
-    for fn in (r1, r2, r3, r4, r5, r6):
+    for fn in (r1, r2, r3, r4, r5, r6, r7):
         try:
             fn(ctx, facts)
         except AnchorLost as ex:
